@@ -491,6 +491,7 @@ class Parser:
 
     def _parse_break_statement(self) -> BreakStatement:
         """Parse break statement."""
+        keyword = self.previous
         label = None
         # Only consume identifier as label if on same line (ASI rule)
         if (
@@ -499,10 +500,11 @@ class Parser:
         ):
             label = Identifier(self._advance().value)
         self._consume_semicolon()
-        return BreakStatement(label)
+        return self._loc(BreakStatement(label), keyword)
 
     def _parse_continue_statement(self) -> ContinueStatement:
         """Parse continue statement."""
+        keyword = self.previous
         label = None
         # Only consume identifier as label if on same line (ASI rule)
         if (
@@ -511,7 +513,7 @@ class Parser:
         ):
             label = Identifier(self._advance().value)
         self._consume_semicolon()
-        return ContinueStatement(label)
+        return self._loc(ContinueStatement(label), keyword)
 
     def _parse_return_statement(self) -> ReturnStatement:
         """Parse return statement."""
